@@ -1,4 +1,4 @@
-(* Proofs/XMono.v — fuel monotonicity of the struct-mapped operations of Schema/XOps.v (the analogue of
+(* Proofs/XMonoT.v — fuel monotonicity of the struct-mapped operations of Schema/XOps.v (the analogue of
    Proofs/MonoEq.v on top of Proofs/XOpsEq.v): more fuel never changes a result that was not OutOfFuel.
    With the information order  le_out r r' := r = OutOfFuel \/ r = r'  of MonoEq.v. *)
 From Coq Require Import Lia.
@@ -16,7 +16,7 @@ Proof.
   le_solve_with ltac:(try (apply IH; exact Hf)).
 Qed.
 
-Section XMono.
+Section XMonoT.
 Variable words : list (string * bool).
 Variable pu : units -> string -> option fl.
 
@@ -100,4 +100,4 @@ Proof.
   - eapply xcompat_mono; eauto.
 Qed.
 
-End XMono.
+End XMonoT.
